@@ -30,14 +30,23 @@ import (
 
 const (
 	c08SID      = uint32(0x0c08)
-	c08SearchN  = 5 // destinations d0..d4 of the exhaustive part (> scaled cache size)
 	c08HookAddr = "198.51.100.7:5353"
 	c08Yields   = 10000
 )
 
 // Destination strings of the exhaustive part: an IPv4 literal, a bracketed IPv6 literal, names
 // in lower/upper case and with a trailing dot - the policy is a predicate on the exact string.
-var c08Dests = []string{"192.0.2.1:53", "[2001:db8::1]:443", "d2.example:1", "D3.EXAMPLE:65535", "d4.example.:80"}
+var c08Dests = []string{"192.0.2.1:53", "[2001:db8::1]:443", "d2.example:1", "D3.EXAMPLE:65535", "d4.example.:80", "d5.example:5000"}
+
+// c08SearchN: number of destinations of the exhaustive part = scaled cache capacity + 2, so
+// that the cache overflows by two (capacity 3 -> d0..d4, capacity 4 -> d0..d5).
+var c08SearchN = func() int {
+	n := maxSessionACLCache + 2
+	if n > len(c08Dests) {
+		n = len(c08Dests)
+	}
+	return n
+}()
 
 var (
 	c08ErrDenied = errors.New("c08: destination rejected by the outbound policy")
@@ -621,7 +630,7 @@ func (c c08Cfg) String() string {
 }
 
 func (c c08Cfg) allow(addr string) bool {
-	for i, d := range c08Dests {
+	for i, d := range c08Dests[:c08SearchN] {
 		if d == addr {
 			return c.Policy&(1<<i) != 0
 		}
@@ -666,7 +675,7 @@ func c08NewSys(cfg c08Cfg) *c08Sys {
 	if c08Live != nil {
 		c08Live.teardown()
 	}
-	dom := append(append([]string{}, c08Dests...), c08HookAddr)
+	dom := append(append([]string{}, c08Dests[:c08SearchN]...), c08HookAddr)
 	w := c08NewWorld(cfg.allow, cfg.hook(), dom)
 	w.ownVict = true
 	c08Live = w
@@ -749,6 +758,7 @@ func c08Enabled(s xstate.Sys[c08Op], op c08Op) bool {
 }
 
 type c08SearchReplay struct {
+	Cap     int     `json:"cache_capacity"`
 	Cfg     c08Cfg  `json:"cfg"`
 	History []c08Op `json:"history"`
 }
@@ -767,7 +777,7 @@ func c08RunHistory(r *c08SearchReplay) error {
 func c08Search(sh *evidence.Shard) {
 	env := sh.Env()
 	p := sh.Part("search", "xstate")
-	if maxSessionACLCache >= c08SearchN || maxSessionACLCache < 2 {
+	if maxSessionACLCache+2 != c08SearchN || maxSessionACLCache < 2 {
 		sh.InfraError("search unit built without the const override: maxSessionACLCache=%d", maxSessionACLCache)
 		return
 	}
@@ -776,12 +786,12 @@ func c08Search(sh *evidence.Shard) {
 		depth = 9
 	}
 	p.Alphabet = map[string]any{
-		"destinations":         c08Dests,
+		"destinations":         c08Dests[:c08SearchN],
 		"hook_address":         c08HookAddr,
-		"policies":             "every allow/deny predicate on d0..d4 (32); with a hook every predicate on d0..d4,h (64)",
+		"policies":             fmt.Sprintf("every allow/deny predicate on the %d destinations (%d); with a hook every predicate on the destinations and h (%d)", c08SearchN, 1<<c08SearchN, 2<<c08SearchN),
 		"hook":                 []string{"off", "rewrites every session's first destination to h", "rewrites the first destination to h only when it is d0"},
 		"operations":           "complete unfragmented datagram to d_i (session id fixed) x owned eviction victim (rank among the sorted cached entries, only when the step evicts); cleanup of all sessions",
-		"maxSessionACLCache":   fmt.Sprintf("%d (rewritten from 256 so that 5 destinations overflow it)", maxSessionACLCache),
+		"maxSessionACLCache":   fmt.Sprintf("%d (rewritten from 256 so that %d destinations overflow it)", maxSessionACLCache, c08SearchN),
 		"after_each_datagram":  "one reply from the last forwarded destination is pushed through the real receive loop",
 		"canonical_state_key":  "session/socket exists, OverrideAddr, OriginalAddr, sorted aclCache entries with verdicts",
 		"max_depth":            depth,
@@ -833,8 +843,8 @@ func c08Search(sh *evidence.Shard) {
 			if errors.As(res.Violation, &ce) {
 				clause, detail = ce.Clause, ce.Detail
 			}
-			sig := fmt.Sprintf("search/%s/%s/%v", clause, cfg, res.History)
-			sh.Violate(p.Name, sig, fmt.Sprintf("%s after %v under %s: %s", clause, res.History, cfg, detail), &c08SearchReplay{Cfg: cfg, History: res.History})
+			sig := fmt.Sprintf("search/cap=%d/%s/%s/%v", maxSessionACLCache, clause, cfg, res.History)
+			sh.Violate(p.Name, sig, fmt.Sprintf("%s after %v under %s: %s", clause, res.History, cfg, detail), &c08SearchReplay{Cap: maxSessionACLCache, Cfg: cfg, History: res.History})
 		}
 	}
 }
@@ -843,12 +853,12 @@ func c08ReplaySearch(part string, raw json.RawMessage) (bool, bool, string) {
 	if part != "search" {
 		return false, false, ""
 	}
-	if maxSessionACLCache >= c08SearchN {
-		return false, false, ""
-	}
 	var r c08SearchReplay
 	if err := json.Unmarshal(raw, &r); err != nil {
 		return true, false, err.Error()
+	}
+	if r.Cap != maxSessionACLCache {
+		return false, false, "" // recorded by the unit built with another capacity
 	}
 	if err := c08RunHistory(&r); err != nil {
 		return true, true, err.Error()
